@@ -266,3 +266,18 @@ def run(P, C):
                 cmp_members.add(g.nodes[i]["member"])
         need = {"ndim", "order", "naxes", "nknots", "knots", "coefficients"}
         C.ob("FS-1", "operator==", "compares", need <= cmp_members, g.where(), "equality compares %s (required %s)" % (sorted(cmp_members), sorted(need)))
+
+
+def fs6(P, C):
+    C.rule("FS-6", "the disk and the memory back ends share one writer core and one reader core (write_fits / write_fits_mem both call "
+           "write_fits_core exactly once, read_fits / read_fits_mem both call read_fits_core exactly once, and nothing else in them touches the table)", floor=4)
+    for outer, corefn in (("write_fits", "write_fits_core"), ("write_fits_mem", "write_fits_core"), ("read_fits", "read_fits_core"), ("read_fits_mem", "read_fits_core")):
+        fs_ = [g for g in P.fns(outer) if g.cls == ts.CLS and g.unit == "driver"]
+        if len(fs_) != 1:
+            raise core.AnalysisBroken("%s: expected one instantiation" % outer)
+        g = fs_[0]
+        calls = [i for i, cal in g.calls() if cal and cal["name"] == corefn]
+        other = [cal["name"] for i, cal in g.calls() if cal and cal.get("cls", "").startswith("photospline::splinetable<") and cal["name"] not in (corefn, "clear")]
+        writes = [x for x in g.walk() if ts.member_writes(g, x)]
+        C.ob("FS-6", outer, "shares-core", len(calls) == 1 and not other and not writes, g.where(),
+             "%s calls %s %d time(s); other table members called: %s; direct member writes: %d" % (outer, corefn, len(calls), other, len(writes)))
